@@ -233,7 +233,7 @@ func registerStatic(e *Engine) {
 	}
 	// InitGenesisOrder: the constant string list passed to ModuleManager.SetOrderInitGenesis in
 	// app.NewApp (a slice literal of module-name constants), in order.
-	in[rtwPkgPath+".InitGenesisOrder"] = func(p *Path, a []Value) Value {
+	moduleOrder := func(p *Path, setter string) Value {
 		fn := p.eng.findFuncByName(modPath + "/app.NewApp")
 		if fn == nil {
 			panic(engErr("app.NewApp not found (package app not loaded?)"))
@@ -246,16 +246,16 @@ func registerStatic(e *Engine) {
 					continue
 				}
 				sc := c.Call.StaticCallee()
-				if sc == nil || !strings.HasSuffix(sc.String(), ".SetOrderInitGenesis") {
+				if sc == nil || !strings.HasSuffix(sc.String(), "."+setter) {
 					continue
 				}
 				sl, ok := c.Call.Args[len(c.Call.Args)-1].(*ssa.Slice)
 				if !ok {
-					panic(engErr("SetOrderInitGenesis argument is not a slice literal"))
+					panic(engErr("%s argument is not a slice literal", setter))
 				}
 				alloc, ok := sl.X.(*ssa.Alloc)
 				if !ok {
-					panic(engErr("SetOrderInitGenesis argument is not a slice literal"))
+					panic(engErr("%s argument is not a slice literal", setter))
 				}
 				byIdx := map[int]string{}
 				max := -1
@@ -288,7 +288,37 @@ func registerStatic(e *Engine) {
 				return VSlice{Obj: p.newObj(&VArray{E: out}, "genesisorder"), Len: len(out), Cap: len(out)}
 			}
 		}
-		panic(engErr("no SetOrderInitGenesis call in app.NewApp"))
+		panic(engErr("no %s call in app.NewApp", setter))
+	}
+	in[rtwPkgPath+".InitGenesisOrder"] = func(p *Path, a []Value) Value { return moduleOrder(p, "SetOrderInitGenesis") }
+	in[rtwPkgPath+".BeginBlockOrder"] = func(p *Path, a []Value) Value { return moduleOrder(p, "SetOrderBeginBlockers") }
+	in[rtwPkgPath+".StreamFeeCollector"] = func(p *Path, a []Value) Value {
+		fn := p.eng.findFuncByName(modPath + "/app.NewApp")
+		if fn == nil {
+			panic(engErr("app.NewApp not found (package app not loaded?)"))
+		}
+		want := modPath + "/x/stream/keeper.NewKeeper"
+		for _, b := range fn.Blocks {
+			for _, ins := range b.Instrs {
+				c, ok := ins.(*ssa.Call)
+				if !ok {
+					continue
+				}
+				sc := c.Call.StaticCallee()
+				if sc == nil || sc.String() != want {
+					continue
+				}
+				sig := sc.Signature
+				for i := 0; i < sig.Params().Len(); i++ {
+					if sig.Params().At(i).Name() == "feeCollectorName" {
+						p.hr.noteFunc(fn)
+						return p.foldSSA(c.Call.Args[i], 0)
+					}
+				}
+				panic(engErr("stream NewKeeper has no parameter feeCollectorName"))
+			}
+		}
+		panic(engErr("no call of %s in app.NewApp", want))
 	}
 	in[rtwPkgPath+".StaticTrace"] = func(p *Path, a []Value) Value {
 		name := cStr(a[0], "function name")
